@@ -439,6 +439,11 @@ func classifyClientReturns(P *core.Program, fn *ssa.Function, msgParam int, dept
 	for _, rb := range an.ReturnBlocks(fn) {
 		r := an.LastInstr(rb).(*ssa.Return)
 		res := an.ReturnValues(r)
+		// (a defensive branch that cannot be taken: `if !errors.Is(err, errFull) { return …err }` where
+		// errFull is all the callee ever fails with)
+		if deadByErrorsIs(P, fn, rb) {
+			continue
+		}
 		mr := mwReturn{fn: fn, ret: r, msgPath: msgPath}
 		// delegation: return m.helper(ctx, msg)
 		if ex, ok := res[0].(*ssa.Extract); ok && depth < 2 {
@@ -494,7 +499,7 @@ func classifyClientReturns(P *core.Program, fn *ssa.Function, msgParam int, dept
 			mr.kind, mr.reply = "reject", rej[0]
 		case nilFwd && nilRej && errNil:
 			mr.kind = "drop"
-		case nilFwd && nilRej && !errNil && onlyWithoutCtxState(fn, rb):
+		case nilFwd && nilRej && !errNil && (onlyWithoutCtxState(fn, rb) || errorOnlyNoState(fn, rb, 0)):
 			// the per-connection state is missing from the context (ServeNostrStart was never run for
 			// it): the session ends with an error where a failed type assertion used to panic
 			mr.kind = "nostate"
@@ -565,6 +570,9 @@ func runMwTemplate(c *core.Ctx) {
 		for _, r := range srets {
 			switch r.kind {
 			case "forward":
+			case "nostate":
+				// (the session's state is missing: the session ends with an error, as on the client side)
+				ndrop++
 			case "drop":
 				ndrop++
 				if !strings.Contains(b.name, "SendEventUniqueFilter") {
@@ -1291,6 +1299,87 @@ func onlyWithoutCtxState(fn *ssa.Function, b *ssa.BasicBlock) bool {
 	return true
 }
 
+// errorOnlyNoState: block b of fn (a return with a non-nil error) is reached only behind
+// `err != nil` for the error of a module function whose own failing ways out are all of the
+// "no per-connection state" kind (directly, or through such a function again): the failure is
+// handed up, wrapped or not, from the one place that found the session missing.
+func errorOnlyNoState(fn *ssa.Function, b *ssa.BasicBlock, depth int) bool {
+	if depth > 3 {
+		return false
+	}
+	alts, ok := an.ReachConds(fn, b)
+	if !ok || len(alts) == 0 {
+		return false
+	}
+	for _, cs := range alts {
+		if !condsNoState(cs, depth) {
+			return false
+		}
+	}
+	return true
+}
+
+// condsNoState: among the conditions of one way through a function, one says "no per-connection
+// state": the direct test, or `err != nil` for a module function that fails only that way.
+func condsNoState(cs []an.Cond, depth int) bool {
+	for _, cd := range cs {
+		if ctxStateAbsent(cd) {
+			return true
+		}
+		cd = an.NormCond(cd)
+		bo, isB := cd.V.(*ssa.BinOp)
+		if !isB || !an.IsNilConst(bo.Y) || (bo.Op != token.EQL && bo.Op != token.NEQ) || (bo.Op == token.NEQ) != cd.True {
+			continue
+		}
+		var call *ssa.Call
+		idx := 0
+		switch x := bo.X.(type) {
+		case *ssa.Extract:
+			call, _ = x.Tuple.(*ssa.Call)
+			idx = x.Index
+		case *ssa.Call:
+			call = x
+		}
+		if call == nil {
+			continue
+		}
+		g := an.StaticCallee(&call.Call)
+		if g == nil || !an.InModuleFn(g) || len(g.Blocks) == 0 || depth > 3 {
+			continue
+		}
+		if failsOnlyNoState(g, idx, depth+1) {
+			return true
+		}
+	}
+	return false
+}
+
+// failsOnlyNoState: every feasible way out of g on which its error result #idx may be non-nil
+// carries a "no per-connection state" condition (and there is such a way).
+func failsOnlyNoState(g *ssa.Function, idx, depth int) bool {
+	any := false
+	for _, rb := range an.ReturnBlocks(g) {
+		rvs := an.ReturnValues(an.LastInstr(rb).(*ssa.Return))
+		if idx >= len(rvs) {
+			return false
+		}
+		cps, ok := an.ReachCondPaths(g, rb)
+		if !ok {
+			return false
+		}
+		for _, cp := range cps {
+			if an.IsNilConst(resolveRet(rvs[idx], cp.Path)) {
+				continue
+			}
+			any = true
+			if !condsNoState(cp.Conds, depth) {
+				return false
+			}
+		}
+	}
+	return any
+}
+
 func ctxValueAssert(v ssa.Value) *ssa.TypeAssert {
 	ex, ok := v.(*ssa.Extract)
 	if !ok {
@@ -1311,6 +1400,14 @@ func ctxStateAbsent(cd an.Cond) bool {
 	cd = an.NormCond(cd)
 	if ex, ok := cd.V.(*ssa.Extract); ok && ex.Index == 1 && ctxValueAssert(ex) != nil {
 		return !cd.True
+	}
+	// the state kept in a table of the base under an id the context carries (`subs, ok := c.m[getRequestID(ctx)]`)
+	if ex, ok := cd.V.(*ssa.Extract); ok && ex.Index == 1 && !cd.True {
+		if lk, isLk := ex.Tuple.(*ssa.Lookup); isLk && lk.CommaOk && strings.HasPrefix(an.PathOf(lk.X), "recv.") {
+			if _, isMap := lk.X.Type().Underlying().(*types.Map); isMap && strings.Contains(an.PathOf(lk.Index), "p:ctx") {
+				return true
+			}
+		}
 	}
 	b, ok := cd.V.(*ssa.BinOp)
 	if !ok || (b.Op != token.EQL && b.Op != token.NEQ) || !an.IsNilConst(b.Y) || (b.Op == token.EQL) != cd.True {
